@@ -57,6 +57,7 @@ type verifDeploy struct {
 	operators []string
 	runners   []string
 	ckpts     int
+	ckptID    uint64 // id of the checkpoint the operator is deployed from (0 = none)
 }
 
 func (o *verifOp) ID() string   { return o.id }
@@ -68,6 +69,9 @@ func (o *verifOp) Deploy(ctx context.Context, req *workerpb.DeployOperatorReques
 		o.hold.waiting--
 	}
 	d := verifDeploy{target: o.id, runners: req.SourceRunnerIds, ckpts: len(req.Checkpoints)}
+	if len(req.Checkpoints) > 0 {
+		d.ckptID = req.Checkpoints[0].CheckpointId
+	}
 	for _, n := range req.Operators {
 		d.operators = append(d.operators, n.Id)
 	}
@@ -102,6 +106,10 @@ func (r *verifRunner) StartCheckpoint(ctx context.Context, id uint64) error {
 type verifJobLoc struct {
 	paths []string
 	data  [][]byte
+	// holdWrites: a write blocks until the harness releases it (slow storage)
+	holdWrites bool
+	waiting    int
+	gate       chan struct{}
 }
 
 func (l *verifJobLoc) find(p string) int {
@@ -114,6 +122,11 @@ func (l *verifJobLoc) find(p string) int {
 }
 func (l *verifJobLoc) Write(path string, r io.Reader) (string, error) {
 	b, _ := io.ReadAll(r)
+	if l.holdWrites {
+		l.waiting++
+		<-l.gate
+		l.waiting--
+	}
 	if i := l.find(path); i >= 0 {
 		l.data[i] = b
 		return path, nil
@@ -309,7 +322,7 @@ type verifJobEnv struct {
 }
 
 func verifNewJob(workers int) *verifJobEnv {
-	e := &verifJobEnv{clock: newVerifClock(), loc: &verifJobLoc{}, hold: &verifHold{gate: make(chan struct{})}}
+	e := &verifJobEnv{clock: newVerifClock(), loc: &verifJobLoc{gate: make(chan struct{})}, hold: &verifHold{gate: make(chan struct{})}}
 	job, err := New(&NewParams{
 		JobConfig:         &config.Config{WorkerCount: workers, KeyGroupCount: 8, WorkingStorageLocation: "memory:///w", Sources: []connectors.SourceConfig{verifSource{starts: &e.splitterStarts}}},
 		Clock:             e.clock,
@@ -550,5 +563,77 @@ func Harness_C15_LossDuringDeploy() {
 	e.clock.TickEvery("checkpointing")
 	e.settle()
 	verif.Assert(len(e.started) == startedBefore+1, "checkpoint-tick-starts-a-checkpoint")
+	verif.Reached()
+}
+
+// Harness_C01_RestartSnapshotConsistency: checkpoint 1 is published; checkpoint 2 is fully
+// acknowledged but its snapshot file is still being written (slow storage) when a member is lost
+// and a replacement registers. The job deploys the new assembly - and the write may complete
+// while the operators are being deployed. Operators and sources must restart from one and the
+// same checkpoint: the split positions the new splitter starts from belong to the checkpoint
+// the operators were deployed with.
+func Harness_C01_RestartSnapshotConsistency() {
+	e := verifNewJob(1)
+	ctx := context.Background()
+	e.job.HandleRegisterOperator(&jobpb.NodeIdentity{Id: "o1", Host: "h"})
+	e.job.HandleRegisterSourceRunner(&jobpb.NodeIdentity{Id: "r1", Host: "h"})
+	e.settle()
+	verif.Assert(e.job.status.Value() == StatusRunning, "job-runs-on-a-full-assembly")
+	ack := func(id uint64, pos byte) {
+		e.job.HandleOperatorCheckpointComplete(ctx, &snapshotpb.OperatorCheckpoint{CheckpointId: id, OperatorId: "o1", DkvFileUri: "w/o1/checkpoints", KeyGroupRange: &snapshotpb.KeyGroupRange{Start: 0, End: 8}})
+		e.job.HandleSourceRunnerCheckpointComplete(ctx, &jobpb.SourceRunnerCheckpointCompleteRequest{CheckpointId: id, SourceRunnerId: "r1", SplitStates: [][]byte{{pos}}})
+	}
+	e.clock.TickEvery("checkpointing")
+	e.settle()
+	ack(1, 1)
+	e.settle()
+	cur := e.job.snapshotStore.CurrentCheckpoint()
+	verif.Assert(cur != nil && cur.Id == 1, "first-checkpoint-completes")
+
+	// checkpoint 2: everybody acknowledges, the snapshot write hangs
+	e.clock.TickEvery("checkpointing")
+	e.settle()
+	e.loc.holdWrites = true
+	ack(2, 2)
+	e.settle()
+	verif.Assert(e.loc.waiting == 1, "publication-of-checkpoint-2-in-flight")
+
+	// the operator is lost, a replacement registers: the job starts a new assembly; its Deploy is slow
+	e.hold.on = true
+	e.job.HandleDeregisterOperator(&jobpb.NodeIdentity{Id: "o1"})
+	e.settle()
+	e.job.HandleRegisterOperator(&jobpb.NodeIdentity{Id: "o2", Host: "h"})
+	e.settle()
+	verif.Assert(e.hold.waiting == 1, "deployment-in-progress")
+	// when the snapshot write completes: before the deployment finishes, or after it
+	if verif.Choose("write-completes-during-deploy", 2) == 1 {
+		e.loc.holdWrites = false
+		e.loc.gate <- struct{}{}
+		e.settle()
+	}
+	e.hold.on = false
+	e.hold.gate <- struct{}{}
+	e.settle()
+	if e.loc.waiting > 0 {
+		e.loc.holdWrites = false
+		e.loc.gate <- struct{}{}
+		e.settle()
+	}
+	verif.Assert(e.job.status.Value() == StatusRunning, "job-runs-again-after-replacement")
+	var dep *verifDeploy
+	for i := range e.deploys {
+		if e.deploys[i].target == "o2" {
+			dep = &e.deploys[i]
+		}
+	}
+	verif.Assert(dep != nil, "replacement-deployed")
+	verif.Assert(len(e.splitterStarts) == 2, "splitter-started-once-per-assembly")
+	if dep != nil && len(e.splitterStarts) == 2 {
+		got := e.splitterStarts[1]
+		verif.Assert(dep.ckptID >= 1 && got != nil && len(got.SplitStates) == 1 && len(got.SplitStates[0]) == 1, "restart-from-a-completed-checkpoint")
+		if got != nil && len(got.SplitStates) == 1 && len(got.SplitStates[0]) == 1 {
+			verif.Assert(uint64(got.SplitStates[0][0]) == dep.ckptID, "sources-resume-from-the-checkpoint-the-operators-were-deployed-with")
+		}
+	}
 	verif.Reached()
 }
